@@ -169,6 +169,10 @@ func FmtRandom(rng *rand.Rand, id int) *FmtCase {
 			}
 		}
 		toks = append(toks, "-j "+ph("i", port, append([]string{"join:" + sep}, mods...)))
+		if len(ms) > 0 && rng.Intn(2) == 0 {
+			// the same joined port once more, with another modifier chain (basename suits every member)
+			toks = append(toks, "-k "+ph("i", port, []string{"join:" + sep, "basename"}))
+		}
 	}
 	// outputs
 	nout := 1 + rng.Intn(2)
